@@ -12,8 +12,8 @@ package operationapplier
 //@ spec big() Z { 4611686018427387904 }
 //
 //@ func (*Applier).getAnchorUntil
-//@   requires s != nil && from < big() && s.MaxOperationTimeDelta < big()
-//@   ensures  result == effUntil(from, until, s.MaxOperationTimeDelta)
+//@   requires s != nil && s.MaxOperationTimeDelta < big()
+//@   ensures  from < big() ==> result == effUntil(from, until, s.MaxOperationTimeDelta)
 //
 //@ func (*Applier).verifyAnchoringTimeRange
 //@   requires s != nil && s.MaxOperationTimeDelta < big() && anchor < big()
@@ -26,20 +26,34 @@ package operationapplier
 //@ spec reqReveal(req bytes) string
 //@ spec reqSuffix(req bytes) string
 //@ spec reqSuffixData(req bytes) *model.SuffixDataModel
-//@ spec updKey(c string) *jws.JWK
-//@ spec updDeltaHash(c string) string
-//@ spec updFrom(c string) int64
-//@ spec updUntil(c string) int64
-//@ spec recKey(c string) *jws.JWK
-//@ spec recDeltaHash(c string) string
-//@ spec recCommit(c string) string
-//@ spec recOrigin(c string) any
-//@ spec recFrom(c string) int64
-//@ spec recUntil(c string) int64
-//@ spec deaKey(c string) *jws.JWK
-//@ spec deaSuffix(c string) string
-//@ spec deaFrom(c string) int64
-//@ spec deaUntil(c string) int64
+//@ spec sdUpdKey(payload bytes) *jws.JWK
+//@ spec updKey(c string) *jws.JWK { sdUpdKey(jwsPayload(c)) }
+//@ spec sdUpdDeltaHash(payload bytes) string
+//@ spec updDeltaHash(c string) string { sdUpdDeltaHash(jwsPayload(c)) }
+//@ spec sdUpdFrom(payload bytes) int64
+//@ spec updFrom(c string) int64 { sdUpdFrom(jwsPayload(c)) }
+//@ spec sdUpdUntil(payload bytes) int64
+//@ spec updUntil(c string) int64 { sdUpdUntil(jwsPayload(c)) }
+//@ spec sdRecKey(payload bytes) *jws.JWK
+//@ spec recKey(c string) *jws.JWK { sdRecKey(jwsPayload(c)) }
+//@ spec sdRecDeltaHash(payload bytes) string
+//@ spec recDeltaHash(c string) string { sdRecDeltaHash(jwsPayload(c)) }
+//@ spec sdRecCommit(payload bytes) string
+//@ spec recCommit(c string) string { sdRecCommit(jwsPayload(c)) }
+//@ spec sdRecOrigin(payload bytes) any
+//@ spec recOrigin(c string) any { sdRecOrigin(jwsPayload(c)) }
+//@ spec sdRecFrom(payload bytes) int64
+//@ spec recFrom(c string) int64 { sdRecFrom(jwsPayload(c)) }
+//@ spec sdRecUntil(payload bytes) int64
+//@ spec recUntil(c string) int64 { sdRecUntil(jwsPayload(c)) }
+//@ spec sdDeaKey(payload bytes) *jws.JWK
+//@ spec deaKey(c string) *jws.JWK { sdDeaKey(jwsPayload(c)) }
+//@ spec sdDeaSuffix(payload bytes) string
+//@ spec deaSuffix(c string) string { sdDeaSuffix(jwsPayload(c)) }
+//@ spec sdDeaFrom(payload bytes) int64
+//@ spec deaFrom(c string) int64 { sdDeaFrom(jwsPayload(c)) }
+//@ spec sdDeaUntil(payload bytes) int64
+//@ spec deaUntil(c string) int64 { sdDeaUntil(jwsPayload(c)) }
 //@ spec deltaValid(parser any, d *model.DeltaModel) bool
 //@ spec suffixValid(parser any, d *model.SuffixDataModel) bool
 //@ spec patchOK(doc document.Document, patches []patch.Patch) bool
